@@ -75,6 +75,8 @@ def gen_overlap(rng, seed, prog):
                        rng.choice([0, 1, 2, 3, 4, 6, 8, 10, 12, 15, 20, 25, 30, 40, 60])]
     if rng.random() < 0.15:
         case["sched"]["opcodes"] = True      # pre-emption between bytecodes of simulator.py
+    if rng.random() < 0.4:
+        case["sched"]["refill"] = True       # pre-emption budget per command instead of per run
     return case
 
 
@@ -250,8 +252,15 @@ def execute(case):
                              "handler of event %s ran at %s, after the replication "
                              "end %s" % (late[0][1], late[0][2], end)))
         got = devscommon.executed(H[last_init:])
+        # a TIME_CHANGED subscriber that schedules events makes the *model*
+        # depend on which times are announced; an exclusive bounded run moves the
+        # clock to its bound without announcing it, so the pieces are then only
+        # judged in lock-step with the reference (above), not against the
+        # uninterrupted run
+        announce_sensitive = bool(case["program"].get("tc_listener")) and \
+            any(c[0] == "run_up_to" for c in case["commands"])
         if r.final[0] == "ENDED" and not info.get("beyond_end"):
-            d = devscommon.describe_trace_diff(got, full)
+            d = None if announce_sensitive else devscommon.describe_trace_diff(got, full)
             if d is not None:
                 findings.append(("composition-mismatch",
                                  "the segmented replication differs from the "
